@@ -1056,7 +1056,8 @@ def check_C09(tier, seed):
             "contexts, `$` rules, all decision menus) + the fixed maximal-munch shapes; part 1: every "
             "behaviour of RefLexer.tla for all inputs of length <= k replayed (TLC also checks the "
             "variant Progress and the bound Bounded on the specification); part 2: the real lexers "
-            "run freely (until None plus three calls, budget n+6 calls, panics caught, watchdog) on "
+            "run freely (through `new` or the iterator constructors, asking for size_hint() before every "
+            "call as Iterator adaptors do; until None plus three calls, budget n+6 calls, panics caught, watchdog) on "
             "random inputs up to 60 characters, the empty input, runs of one repeated character and "
             "long inputs; each recording <= 80 characters is validated by TLC against "
             "Trace_RefLexer.tla; non-trivial = distinct (program, input, script)")
@@ -1091,7 +1092,8 @@ def check_C09(tier, seed):
                                 40 if tier == "quick" else max(10, min(80, 16000 // max(1, len(progs)))),
                                 60, lambda evs: [c09_reason(evs, 10 ** 9, False)],
                                 "termination/progress/panic-freedom",
-                                extra_inputs=[[c] * longn for c in (97, 120)] + [[120, 97] * 500])
+                                extra_inputs=[[c] * longn for c in (97, 120)] + [[120, 97] * 500],
+                                ctors=(0, 0, 2, 3))
         n_long = 0
         for r in runs:
             rq = reqs[r["i"]]
